@@ -1,15 +1,14 @@
 package main
 
 import (
-	"bufio"
+	"encoding/json"
 	"fmt"
 	"go/ast"
-	"go/token"
 	"go/types"
 	"os"
 	"path/filepath"
 	"regexp"
-	"strconv"
+	"sort"
 	"strings"
 	"sync"
 	"time"
@@ -17,115 +16,40 @@ import (
 	"golang.org/x/tools/go/packages"
 )
 
-func loadContracts(path string) (map[string]*Contract, []string, error) {
-	f, err := os.Open(path)
-	if err != nil {
-		return nil, nil, err
-	}
-	defer f.Close()
-	cons := map[string]*Contract{}
-	var order []string
-	var cur *Contract
-	sc := bufio.NewScanner(f)
-	sigRe := regexp.MustCompile(`^([^\s(]+|\([^)]*\)[^\s(]*)(?:\(([^)]*)\))?(?:\s*\(([^)]*)\))?$`)
-	for sc.Scan() {
-		line := strings.TrimSpace(sc.Text())
-		line = strings.TrimPrefix(line, "//@")
-		line = strings.TrimSpace(line)
-		if line == "" || strings.HasPrefix(line, "#") {
-			continue
-		}
-		word, rest, _ := strings.Cut(line, " ")
-		rest = strings.TrimSpace(rest)
-		switch word {
-		case "func", "trusted":
-			m := sigRe.FindStringSubmatch(rest)
-			if m == nil {
-				return nil, nil, fmt.Errorf("bad signature: %s", line)
-			}
-			cur = &Contract{Key: m[1], Trusted: word == "trusted", Invs: map[int][]*SExpr{}}
-			if m[2] != "" {
-				for _, p := range strings.Split(m[2], ",") {
-					cur.Params = append(cur.Params, strings.TrimSpace(p))
-				}
-			}
-			if m[3] != "" {
-				for _, p := range strings.Split(m[3], ",") {
-					cur.Results = append(cur.Results, strings.TrimSpace(p))
-				}
-			}
-			cons[cur.Key] = cur
-			order = append(order, cur.Key)
-		case "requires", "ensures":
-			x, err := ParseSpec(rest)
-			if err != nil {
-				return nil, nil, err
-			}
-			if word == "requires" {
-				cur.Requires = append(cur.Requires, x)
-			} else {
-				cur.Ensures = append(cur.Ensures, x)
-			}
-		case "noescape":
-			cur.NoEscape = true
-		case "nopanic":
-			cur.NoPanic = true
-		case "smt":
-			cur.RawSMT = append(cur.RawSMT, rest)
-		case "ghost":
-			// ghost name = expr
-			n, ex, _ := strings.Cut(rest, "=")
-			x, err := ParseSpec(strings.TrimSpace(ex))
-			if err != nil {
-				return nil, nil, err
-			}
-			cur.Ghosts = append(cur.Ghosts, AtClause{Kind: "ghost", Name: strings.TrimSpace(n), Expr: x})
-		case "at":
-			// at `text` requires E   |  at `text` ghost g = E
-			i := strings.Index(rest, "`")
-			j := strings.LastIndex(rest, "`")
-			text := rest[i+1 : j]
-			cl := strings.TrimSpace(rest[j+1:])
-			kw, body, _ := strings.Cut(cl, " ")
-			if cur.At == nil {
-				cur.At = map[string][]AtClause{}
-			}
-			if kw == "requires" {
-				x, err := ParseSpec(body)
-				if err != nil {
-					return nil, nil, err
-				}
-				cur.At[text] = append(cur.At[text], AtClause{Kind: "requires", Expr: x})
-			} else {
-				n, ex, _ := strings.Cut(body, "=")
-				x, err := ParseSpec(strings.TrimSpace(ex))
-				if err != nil {
-					return nil, nil, err
-				}
-				cur.At[text] = append(cur.At[text], AtClause{Kind: "ghost", Name: strings.TrimSpace(n), Expr: x})
-			}
-		case "loop":
-			// loop N: invariant E
-			parts := strings.SplitN(rest, ":", 2)
-			n, _ := strconv.Atoi(strings.TrimSpace(parts[0]))
-			body := strings.TrimSpace(parts[1])
-			body = strings.TrimSpace(strings.TrimPrefix(body, "invariant"))
-			x, err := ParseSpec(body)
-			if err != nil {
-				return nil, nil, err
-			}
-			cur.Invs[n] = append(cur.Invs[n], x)
-		default:
-			return nil, nil, fmt.Errorf("unknown clause: %s", line)
-		}
-	}
-	return cons, order, nil
+const repoModule = "github.com/99designs/gqlgen"
+
+var verifRoot = "/verif"
+
+type CheckConfig struct {
+	ID          string            `json:"id"`
+	Packages    []string          `json:"packages"`
+	Probes      []ProbeConfig     `json:"probes,omitempty"`
+	Assumptions []string          `json:"assumptions,omitempty"`
+	TrustedBase []string          `json:"trusted_base,omitempty"`
+	Residual    []string          `json:"residual,omitempty"`
+	Bounded     []BoundedCheck    `json:"bounded,omitempty"`
+	Extra       map[string]string `json:"extra,omitempty"`
 }
 
-func findFunc(pkgs []*packages.Package, key string) (*packages.Package, *ast.FuncDecl, *types.Func) {
-	var res *packages.Package
-	var rd *ast.FuncDecl
-	var rf *types.Func
+type BoundedCheck struct {
+	Name  string `json:"name"`
+	Cmd   string `json:"cmd"`
+	Bound string `json:"bound"`
+}
+
+type funcIndex struct {
+	pkgs  []*packages.Package
+	byKey map[string]*funcRef
+}
+
+type funcRef struct {
+	pkg *packages.Package
+	fd  *ast.FuncDecl
+	obj *types.Func
+}
+
+func buildIndex(pkgs []*packages.Package) *funcIndex {
+	ix := &funcIndex{pkgs: pkgs, byKey: map[string]*funcRef{}}
 	packages.Visit(pkgs, nil, func(p *packages.Package) {
 		for _, f := range p.Syntax {
 			for _, d := range f.Decls {
@@ -134,291 +58,323 @@ func findFunc(pkgs []*packages.Package, key string) (*packages.Package, *ast.Fun
 					continue
 				}
 				obj, _ := p.TypesInfo.Defs[fd.Name].(*types.Func)
-				if obj != nil && obj.FullName() == key {
-					res, rd, rf = p, fd, obj
+				if obj != nil {
+					ix.byKey[obj.FullName()] = &funcRef{p, fd, obj}
 				}
 			}
 		}
 	})
-	return res, rd, rf
+	return ix
 }
 
-func main() {
-	repo := os.Getenv("VERIF_REPO")
-	if repo == "" {
-		repo = "/repo"
+func repoDir() string {
+	if r := os.Getenv("VERIF_REPO"); r != "" {
+		return r
 	}
-	conFile := os.Args[1]
-	cons, order, err := loadContracts(conFile)
+	return "/repo"
+}
+
+func loadPackages(dir string, patterns []string) ([]*packages.Package, error) {
+	cfg := &packages.Config{
+		Mode:       packages.NeedName | packages.NeedSyntax | packages.NeedTypes | packages.NeedTypesInfo | packages.NeedFiles | packages.NeedImports | packages.NeedDeps | packages.NeedModule,
+		Dir:        dir,
+		BuildFlags: []string{"-tags=verif", "-mod=mod"},
+		Env:        append(os.Environ(), "GOFLAGS=", "GOPROXY=off"),
+	}
+	pkgs, err := packages.Load(cfg, patterns...)
 	if err != nil {
-		fmt.Println("contract error:", err)
-		os.Exit(2)
+		return nil, err
 	}
-	t0 := time.Now()
-	cfg := &packages.Config{Mode: packages.NeedName | packages.NeedSyntax | packages.NeedTypes | packages.NeedTypesInfo | packages.NeedFiles | packages.NeedImports | packages.NeedDeps, Dir: repo}
-	pkgs, err := packages.Load(cfg, os.Args[2:]...)
-	if err != nil {
-		panic(err)
+	var errs []string
+	packages.Visit(pkgs, nil, func(p *packages.Package) {
+		if strings.HasPrefix(p.PkgPath, repoModule) || isProbePkg(p.PkgPath) {
+			for _, e := range p.Errors {
+				errs = append(errs, e.Error())
+			}
+		}
+	})
+	if len(errs) > 0 {
+		return nil, fmt.Errorf("package load errors: %s", strings.Join(errs, "; "))
 	}
-	fmt.Printf("loaded in %v\n", time.Since(t0))
-	outDir, _ := os.MkdirTemp("", "gocv")
-	defer os.RemoveAll(outDir)
-	tags := map[string]int{}
-	var all []*Obligation
-	var gaps []string
-	for _, key := range order {
-		con := cons[key]
-		if con.Trusted {
+	return pkgs, nil
+}
+
+func isProbePkg(path string) bool { return strings.Contains(path, "/verifprobe/") }
+
+// loadContracts reads verif_contracts.go from every package of the repo module in the import closure.
+func loadContracts(pkgs []*packages.Package, extraFiles map[string]string) (*ContractSet, error) {
+	cs := newContractSet()
+	seen := map[string]bool{}
+	var firstErr error
+	var paths []*packages.Package
+	packages.Visit(pkgs, nil, func(p *packages.Package) { paths = append(paths, p) })
+	sort.Slice(paths, func(i, j int) bool { return paths[i].PkgPath < paths[j].PkgPath })
+	for _, p := range paths {
+		if !strings.HasPrefix(p.PkgPath, repoModule) || len(p.GoFiles) == 0 {
 			continue
 		}
-		p, fd, fobj := findFunc(pkgs, key)
-		if fd == nil {
-			fmt.Printf("BINDING FAILED: %s\n", key)
-			all = append(all, &Obligation{Name: key + ":binding", Result: SolveResult{Status: "unknown"}})
+		dir := filepath.Dir(p.GoFiles[0])
+		cf := filepath.Join(dir, "verif_contracts.go")
+		if seen[cf] {
 			continue
 		}
-		e := &Eng{pkg: p, info: p.TypesInfo, fset: p.Fset, contracts: cons, fn: fd, fnKey: shortKey(key), con: con, strLits: map[string]string{}, allTags: &tags}
-		func() {
-			defer func() {
-				if r := recover(); r != nil {
-					fmt.Printf("ENGINE ERROR in %s: %v\n", key, r)
-					all = append(all, &Obligation{Name: key + ":engine-error", Result: SolveResult{Status: "unknown", Model: fmt.Sprint(r)}})
+		seen[cf] = true
+		if _, err := os.Stat(cf); err != nil {
+			continue
+		}
+		if err := cs.loadFile(cf, p.PkgPath); err != nil && firstErr == nil {
+			firstErr = err
+		}
+	}
+	for f, pkgPath := range extraFiles {
+		if err := cs.loadFile(f, pkgPath); err != nil && firstErr == nil {
+			firstErr = err
+		}
+	}
+	return cs, firstErr
+}
+
+type Unit struct {
+	Key     string
+	Short   string
+	Con     *Contract
+	Obls    []*Obligation
+	Gaps    []string
+	Trusted []string
+	Vacuity *Obligation
+	Entry   []ParamSym
+	LoadMs  int64
+}
+
+type Session struct {
+	tier      string
+	timeoutS  int
+	repo      string
+	ix        *funcIndex
+	cs        *ContractSet
+	tags      map[string]int
+	units     []*Unit
+	engineErr []string
+	outDir    string
+}
+
+func (s *Session) verifyKey(key string, con *Contract) *Unit {
+	u := &Unit{Key: key, Short: shortKey(key), Con: con}
+	ref := s.ix.byKey[key]
+	if ref == nil || ref.fd.Body == nil {
+		u.Obls = append(u.Obls, &Obligation{Name: u.Short + ":binding", Goal: "function under contract exists with a body", Result: SolveResult{Status: "unknown", Model: "no function " + key + " in the loaded packages"}})
+		return u
+	}
+	e := &Eng{pkg: ref.pkg, info: ref.pkg.TypesInfo, fset: ref.pkg.Fset, contracts: s.cs, fn: ref.fd, fnKey: u.Short, con: con, strLits: map[string]string{}, allTags: &s.tags, globals: map[string]*Val{}, trustedUsed: map[string]bool{}}
+	func() {
+		defer func() {
+			if r := recover(); r != nil {
+				if os.Getenv("GOCV_TRACE") != "" {
+					panic(r)
 				}
-			}()
-			e.verifyFunc(fobj)
+				u.Obls = append(u.Obls, &Obligation{Name: u.Short + ":engine-error", Goal: "engine can process the function", Result: SolveResult{Status: "unknown", Model: fmt.Sprint(r)}})
+			}
 		}()
-		all = append(all, e.obls...)
-		for _, g := range e.gaps {
-			gaps = append(gaps, shortKey(key)+": "+g)
+		e.verifyFunc(ref.obj)
+	}()
+	u.Obls = append(u.Obls, e.obls...)
+	u.Gaps = e.gaps
+	for t := range e.trustedUsed {
+		u.Trusted = append(u.Trusted, t)
+	}
+	sort.Strings(u.Trusted)
+	u.Entry = e.entrySyms
+	// vacuity script: declarations + requires must be satisfiable
+	var sb strings.Builder
+	for _, d := range e.declsAtEntry {
+		sb.WriteString(d)
+		sb.WriteString("\n")
+	}
+	body := sb.String() + "(check-sat)\n"
+	u.Vacuity = &Obligation{Name: u.Short + ":vacuity", Script: preambleFor(body) + body, Goal: "(preamble+declarations+requires satisfiable)"}
+	// anchors that never matched
+	for text := range con.At {
+		if !con.atUsed[text] {
+			u.Obls = append(u.Obls, &Obligation{Name: u.Short + ":anchor:" + text, Goal: "anchored call exists in the function", Result: SolveResult{Status: "unknown", Model: "no call with this text in " + key}})
 		}
 	}
-	// solve in parallel
+	return u
+}
+
+func (s *Session) solveAll() {
 	var wg sync.WaitGroup
-	sem := make(chan struct{}, 5)
-	for i, o := range all {
-		if o.Script == "" {
-			continue
+	sem := make(chan struct{}, 6)
+	n := 0
+	run := func(o *Obligation) {
+		if o == nil || o.Script == "" {
+			return
 		}
+		n++
+		id := n
 		wg.Add(1)
-		go func(i int, o *Obligation) {
+		go func() {
 			defer wg.Done()
 			sem <- struct{}{}
 			defer func() { <-sem }()
-			o.Result = solve(outDir, fmt.Sprintf("o%d", i), o.Script, 10)
-		}(i, o)
+			o.Result = solve(s.outDir, fmt.Sprintf("o%d", id), o.Script, s.timeoutS)
+		}()
+	}
+	for _, u := range s.units {
+		for _, o := range u.Obls {
+			run(o)
+		}
+		run(u.Vacuity)
 	}
 	wg.Wait()
-	fail := 0
-	for _, o := range all {
-		st := "OK  "
-		if o.Result.Status != "unsat" {
-			st = "FAIL"
-			fail++
-		}
-		fmt.Printf("%s %-8s %-7s %5dms  %s\n", st, o.Result.Status, o.Result.Backend, o.Result.Ms, o.Name)
-		if o.Result.Status == "sat" && os.Getenv("SHOWMODEL") != "" {
-			fmt.Println(filterModel(o.Result.Model))
-		}
-		if os.Getenv("KEEP") != "" {
-			os.WriteFile(filepath.Join(os.Getenv("KEEP"), strings.Map(func(r rune) rune {
-				if r == '/' || r == ' ' || r == '"' {
-					return '_'
-				}
-				return r
-			}, o.Name)+".smt2"), []byte(o.Script), 0o644)
-		}
+}
+
+func usage() {
+	fmt.Fprintln(os.Stderr, `usage: gocv check <ID> [--tier quick|thorough]
+       gocv replay <violation.json>
+       gocv dev <ID|contractfile> [func-regexp]   (developer view: per-obligation table)
+       gocv selftest [ID...]`)
+	os.Exit(2)
+}
+
+func main() {
+	if v := os.Getenv("VERIF_ROOT"); v != "" {
+		verifRoot = v
 	}
-	fmt.Printf("%d obligations, %d failed, %v total\n", len(all), fail, time.Since(t0))
-	if os.Getenv("GAPS") != "" {
-		for _, g := range gaps {
-			fmt.Println("gap:", g)
+	if len(os.Args) < 2 {
+		usage()
+	}
+	switch os.Args[1] {
+	case "check":
+		if len(os.Args) < 3 {
+			usage()
 		}
+		tier := os.Getenv("VERIF_TIER")
+		for i, a := range os.Args {
+			if a == "--tier" && i+1 < len(os.Args) {
+				tier = os.Args[i+1]
+			}
+		}
+		if tier == "" {
+			tier = "quick"
+		}
+		os.Exit(runCheck(os.Args[2], tier, false, ""))
+	case "dev":
+		if len(os.Args) < 3 {
+			usage()
+		}
+		filter := ""
+		if len(os.Args) > 3 {
+			filter = os.Args[3]
+		}
+		os.Exit(runCheck(os.Args[2], "quick", true, filter))
+	case "replay":
+		if len(os.Args) < 3 {
+			usage()
+		}
+		os.Exit(runReplayFile(os.Args[2]))
+	case "selftest":
+		os.Exit(runSelftest(os.Args[2:]))
+	default:
+		usage()
 	}
 }
 
-func filterModel(m string) string {
-	var out []string
-	lines := strings.Split(m, "\n")
-	for i := 0; i < len(lines); i++ {
-		l := lines[i]
-		if strings.Contains(l, "define-fun") && !strings.Contains(l, "!") || strings.Contains(l, "|a!") || strings.Contains(l, "|b!") || strings.Contains(l, "|v!") || strings.Contains(l, "|i!") {
-			if i+1 < len(lines) {
-				out = append(out, strings.TrimSpace(l)+" "+strings.TrimSpace(lines[i+1]))
-			}
-		}
+func readConfig(id string) (*CheckConfig, error) {
+	b, err := os.ReadFile(filepath.Join(verifRoot, "checks", id+".json"))
+	if err != nil {
+		return nil, err
 	}
-	if len(out) > 30 {
-		out = out[:30]
+	var c CheckConfig
+	if err := json.Unmarshal(b, &c); err != nil {
+		return nil, fmt.Errorf("checks/%s.json: %v", id, err)
 	}
-	return "    " + strings.Join(out, "\n    ")
+	return &c, nil
 }
 
-func (e *Eng) runDeferred(st *State, d deferEntry) *State {
-	fl, ok := ast.Unparen(d.call.Fun).(*ast.FuncLit)
-	if !ok {
-		// plain deferred call: evaluate as a call now
-		e.evalCall(st, d.call)
-		if st.dead {
-			return nil
-		}
-		return st
-	}
-	i := 0
-	for _, f := range fl.Type.Params.List {
-		for _, n := range f.Names {
-			st.vars[e.info.Defs[n]] = d.args[i]
-			i++
-		}
-	}
-	saved := e.exits
-	savedRes := e.results
-	e.exits = nil
-	e.results = nil
-	end := e.execBlock(st, fl.Body.List)
-	outs := []*State{end}
-	var keep []Exit
-	for _, x := range e.exits {
-		if x.Kind == ExitReturn {
-			outs = append(outs, x.St)
-		} else {
-			keep = append(keep, x)
-		}
-	}
-	e.exits = append(saved, keep...)
-	e.results = savedRes
-	return e.merge(outs)
+func engineFail(id string, format string, a ...any) int {
+	// An engine failure is not a property violation, but the check cannot claim the property either.
+	msg := fmt.Sprintf(format, a...)
+	fmt.Printf("ENGINE-ERROR property=%s %s\n", id, msg)
+	dir := filepath.Join(verifRoot, "violations", id)
+	os.MkdirAll(dir, 0o755)
+	p := filepath.Join(dir, "engine-error.json")
+	b, _ := json.MarshalIndent(map[string]any{"property": id, "obligation": "engine", "verifier_output": msg}, "", " ")
+	os.WriteFile(p, b, 0o644)
+	fmt.Printf("VIOLATION property=%s replay=%s no-failing-input-found\n", id, p)
+	return 1
 }
 
-func (e *Eng) verifyFunc(fobj *types.Func) {
-	sig := fobj.Type().(*types.Signature)
-	st := &State{vars: map[types.Object]*Val{}, path: "true", heap: map[string]string{"$epoch": "0"}, counters: map[string]string{}}
-	env := map[string]*Val{}
-	bind := func(v *types.Var) {
-		if v == nil || v.Name() == "" || v.Name() == "_" {
-			return
-		}
-		val := e.freshVal(v.Name(), v.Type())
-		st.vars[v] = val
-		env[v.Name()] = val
+func runCheck(id, tier string, dev bool, filter string) int {
+	t0 := time.Now()
+	cfg, err := readConfig(id)
+	if err != nil {
+		fmt.Fprintln(os.Stderr, "config:", err)
+		return 2
 	}
-	if sig.Recv() != nil {
-		// receiver object from the decl (Defs), not sig
-		if e.fn.Recv != nil && len(e.fn.Recv.List) > 0 && len(e.fn.Recv.List[0].Names) > 0 {
-			obj := e.info.Defs[e.fn.Recv.List[0].Names[0]].(*types.Var)
-			bind(obj)
-		}
+	s := &Session{tier: tier, timeoutS: 10, repo: repoDir(), tags: map[string]int{}}
+	if tier == "thorough" {
+		s.timeoutS = 60
 	}
-	for _, f := range e.fn.Type.Params.List {
-		for _, n := range f.Names {
-			if obj, ok := e.info.Defs[n].(*types.Var); ok {
-				bind(obj)
-			}
+	s.outDir, _ = os.MkdirTemp("", "gocv")
+	defer os.RemoveAll(s.outDir)
+
+	loadDir := s.repo
+	patterns := append([]string{}, cfg.Packages...)
+	extra := map[string]string{}
+	var probeInfo []ProbeResult
+	if len(cfg.Probes) > 0 {
+		scratch, infos, err := generateProbes(s.repo, cfg.Probes, tier)
+		if scratch != "" {
+			defer os.RemoveAll(scratch)
 		}
-	}
-	// results
-	if e.fn.Type.Results != nil {
-		i := 0
-		for _, f := range e.fn.Type.Results.List {
-			if len(f.Names) == 0 {
-				obj := types.NewVar(token.NoPos, nil, fmt.Sprintf("res%d", i), e.info.TypeOf(f.Type))
-				e.results = append(e.results, obj)
-				i++
-				continue
-			}
-			for _, n := range f.Names {
-				obj := e.info.Defs[n].(*types.Var)
-				st.vars[obj] = e.zeroVal(obj.Type())
-				e.results = append(e.results, obj)
-				i++
-			}
+		if err != nil {
+			return engineFail(id, "probe generation failed: %v", err)
+		}
+		loadDir = scratch
+		probeInfo = infos
+		for _, pi := range infos {
+			patterns = append(patterns, pi.Patterns...)
 		}
 	}
-	e.oldEnv = env
-	if len(e.con.RawSMT) > 0 {
-		e.ensureRunes()
-		e.ensureSubstr()
+	pkgs, err := loadPackages(loadDir, patterns)
+	if err != nil {
+		return engineFail(id, "loading packages: %v", err)
 	}
-	e.decls = append(e.decls, e.con.RawSMT...)
-	e.ghosts = map[string]types.Object{}
-	for _, g := range e.con.Ghosts {
-		obj := types.NewVar(token.NoPos, nil, g.Name, types.Typ[types.Int])
-		e.ghosts[g.Name] = obj
-		st.vars[obj] = e.evalSpec(st, g.Expr, env, env)
+	loadMs := time.Since(t0).Milliseconds()
+	s.ix = buildIndex(pkgs)
+	s.cs, err = loadContracts(pkgs, extra)
+	if err != nil {
+		return engineFail(id, "contract file: %v", err)
 	}
-	for _, r := range e.con.Requires {
-		g := e.evalSpec(st, r, env, env)
-		e.decls = append(e.decls, fmt.Sprintf("(assert %s)", g.T))
+	var re *regexp.Regexp
+	if filter != "" {
+		re = regexp.MustCompile(filter)
 	}
-	end := e.execBlock(st, e.fn.Body.List)
-	if end != nil {
-		var vals []*Val
-		for _, r := range e.results {
-			vals = append(vals, end.vars[r])
-		}
-		e.exits = append(e.exits, Exit{Kind: ExitReturn, St: end, Vals: vals, Pos: e.fn.Body.Rbrace})
-	}
-	// run deferred calls on every exit
-	exits := e.exits
-	e.exits = nil
-	for i := range exits {
-		x := &exits[i]
-		if x.Kind == ExitReturn {
-			for ri, r := range e.results {
-				if ri < len(x.Vals) && x.Vals[ri] != nil {
-					x.St.vars[r] = x.Vals[ri]
-				}
-			}
-		}
-		for d := len(x.St.defers) - 1; d >= 0 && x.St != nil; d-- {
-			x.St = e.runDeferred(x.St, x.St.defers[d])
-		}
-		if x.St == nil {
+	for _, key := range s.cs.Order {
+		con := s.cs.ByKey[key]
+		if con.Trusted || !con.hasProp(id) {
 			continue
 		}
-		if x.Kind == ExitPanic && !x.St.panicking {
-			x.Kind = ExitReturn // recovered
+		if re != nil && !re.MatchString(key) {
+			continue
 		}
-		if x.Kind == ExitReturn {
-			x.Vals = nil
-			for _, r := range e.results {
-				x.Vals = append(x.Vals, x.St.vars[r])
-			}
-		}
+		s.units = append(s.units, s.verifyKey(key, con))
 	}
-	e.exits = exits
-	nret := 0
-	for _, x := range e.exits {
-		if x.St == nil {
-			continue
+	s.units = append(s.units, s.familyUnits(id, probeInfo, re)...)
+	s.solveAll()
+	return s.report(id, cfg, dev, t0, loadMs, probeInfo)
+}
+
+func sanitize(name string) string {
+	r := strings.Map(func(r rune) rune {
+		switch {
+		case r >= 'a' && r <= 'z', r >= 'A' && r <= 'Z', r >= '0' && r <= '9', r == '.', r == '-', r == '_', r == '#':
+			return r
 		}
-		if x.Kind == ExitPanic {
-			if e.con.NoEscape {
-				e.oblige(x.St, "noescape", "panic escapes", "false", x.Pos)
-			}
-			continue
-		}
-		if x.Kind != ExitReturn {
-			continue
-		}
-		nret++
-		renv := map[string]*Val{}
-		for k, v := range env {
-			renv[k] = v
-		}
-		for i, r := range e.results {
-			if i < len(x.Vals) && x.Vals[i] != nil {
-				renv[r.Name()] = x.Vals[i]
-				renv[fmt.Sprintf("res%d", i)] = x.Vals[i]
-			}
-		}
-		for n, o := range e.ghosts {
-			renv[n] = x.St.vars[o]
-		}
-		renv["panicked"] = scalar(strconv.FormatBool(x.St.recovered), "Bool", nil)
-		for qi, q := range e.con.Ensures {
-			g := e.evalSpec(x.St, q, renv, env)
-			e.oblige(x.St, "ensures", fmt.Sprintf("#%d@return%d", qi+1, nret), g.T, x.Pos)
-		}
+		return '_'
+	}, name)
+	if len(r) > 150 {
+		r = r[:150]
 	}
-	_ = sig
+	return r
 }
